@@ -351,7 +351,7 @@ def _enum(tier, shard, nshards):
 PHASES = [
     MachinePhase("machine", _machine, dict(quick=500, thorough=3000),
                  dict(quick=25, thorough=60)),
-    HypPhase("pairs", _pair, dict(quick=4000, thorough=60000)),
+    HypPhase("pairs", _pair, dict(quick=7000, thorough=60000)),
     EnumPhase("grid4", _enum,
               lambda tier: "every ordered pair of event subsets of {0..4} on [0,4] (events "
                            "on both edges included) x 5 intervals x window in {0,1,2}",
